@@ -6,6 +6,7 @@ from . import gens_big as GB
 from . import gens_r2 as R2
 from . import gens_r3 as R3
 from . import gens_r4 as R4
+from . import gens_r5 as R5
 
 ERR_KINDS_SMALL = ["ER_NO", "ER_BAD_DB_ERROR", "ER_PARSE_ERROR", "ER_NO_SUCH_TABLE", "ER_DUP_ENTRY",
                    "ER_ACCESS_DENIED_ERROR", "ER_UNKNOWN_ERROR", "ER_LOCK_DEADLOCK"]
@@ -1768,3 +1769,11 @@ gen_C14 = _plus(gen_C14, R4.c14_extra)
 gen_C15 = _plus(gen_C15, R4.c15_extra)
 gen_C16 = _plus(gen_C16, R4.c16_extra)
 gen_C20 = _plus(gen_C20, R4.c20_extra)
+
+
+# fifth round of seeded defects
+gen_C08 = _plus(gen_C08, R5.c08_extra)
+gen_C17 = _plus(gen_C17, R5.c17_extra)
+gen_C13 = _plus(gen_C13, R5.c13_extra)
+gen_C18 = (lambda f: (lambda rng, tier, probe=None: f(rng, tier) + R5.c18_extra(rng, tier, probe)))(gen_C18)
+gen_C19 = (lambda f: (lambda rng, tier, probe=None: f(rng, tier, probe) + R5.c19_extra(rng, tier, probe)))(gen_C19)
